@@ -602,7 +602,8 @@ def _known_not_none(x):
     if at is None:
         return not _isnone(x)      # arithmetic combination
     if at.kind == 'sym':
-        return at.args[0] in NOTNONE
+        # (a parameter a rule states to be a positive number / an integer is a number: not None)
+        return at.args[0] in NOTNONE or at.args[0] in POSITIVE or at.args[0] in INTEGER
     if at.kind == 'call' and (at.args[0] in NUMERIC_RESULT or at.args[0] in NOTNONE_CALLS):
         return True            # numpy constructors / elementwise functions return arrays or numbers, never None
     if at.kind == 'sub':
